@@ -121,6 +121,13 @@ class WireServer:
                 self.send_response_only(sc["status"], sc["reason"])
                 for k, v in sc["headers"]:
                     self.send_header(k, v)
+                if sc.get("truncate"):  # a chunked response that ends in the middle of a chunk: the client gets no response at all
+                    self.send_header("Transfer-Encoding", "chunked")
+                    self.end_headers()
+                    self.wfile.write(b"10\r\nabc")
+                    self.wfile.flush()
+                    self.close_connection = True
+                    return
                 self.send_header("Content-Length", str(len(sc["body"])))
                 self.end_headers()
                 self.wfile.write(sc["body"])
@@ -234,6 +241,7 @@ SHAPES = {
     "f12": ("FAILURE", [(True, [1]), (True, [1, 2])]),
     "neterr": ("ERROR", [(False, [])]),
     "nochecks": ("SUCCESS", [(True, [])]),
+    "lost": ("ERROR", [(None, []), (True, [0]), (None, []), (True, [0]), (None, [])]),  # None = recorded case without an interaction
     "skip": ("SKIP", []),
     "empty": ("ERROR", []),
 }
@@ -254,6 +262,11 @@ def build_events(st, events_desc: list[dict]):
         status, cases = SHAPES[e["shape"]]
         rec = st["Recorder"](label=e["label"])
         for c, (resp, checks) in enumerate(cases, 1):
+            if resp is None:  # the case is recorded, nothing was sent / the transport failed without a prepared request to keep
+                lost = st["op"].Case(meta=st["meta"](META[e["phase"]], "d"))
+                lost.id = "e%dc%d" % (k, c)
+                rec.record_case(parent_id=None, transition=None, case=lost)
+                continue
             failed = any(checks)
             exch.append(make_exchange(
                 st, rec, cid="e%dc%d" % (k, c), url="%s/a?e=%d&c=%d" % (BASE, k, c), resp=resp,
@@ -610,8 +623,9 @@ def py_history_verdict(h: dict, o: dict) -> set[str]:
 
 
 RELEVANT = {"JunitXMLHandler": ("failure-scenario-without-group-under-label",),
-            "ExecutionContext": ("all-failures-already-seen", "no-response"),
-            "CassetteWriter": ("case-without-metadata", "no-response"), "writer-thread": ("case-without-metadata", "no-response")}
+            "ExecutionContext": ("all-failures-already-seen", "no-response", "case-without-interaction"),
+            "CassetteWriter": ("case-without-metadata", "no-response", "case-without-interaction"),
+            "writer-thread": ("case-without-metadata", "no-response", "case-without-interaction")}
 
 
 def history_signature(h: dict, o: dict, comp: str, n: int, detail: str) -> str:
@@ -619,7 +633,8 @@ def history_signature(h: dict, o: dict, comp: str, n: int, detail: str) -> str:
     (crash) or from the spec's description of the cassette entry that contains the offending line / field."""
     if comp == "crash":
         k = o["crashAt"]
-        hz = h["hazards"][k - 1] if 0 < k <= len(h["hazards"]) else []
+        # a writer thread dies asynchronously (seen at shutdown): any event of the history may be the cause
+        hz = h["hazards"][k - 1] if 0 < k <= len(h["hazards"]) else {x for hs in h["hazards"] for x in hs}
         key = [x for x in sorted(hz) if x in RELEVANT.get(o["crashSite"].split(".")[0].split(":")[0], ())]
         return "C16:crash:%s:%s" % (o["crashSite"], "+".join(key) or "any-history")
     if comp == "vcr" and detail == "malformed":
@@ -1036,15 +1051,19 @@ def writer_run(desc: dict) -> list[dict]:
 CLI_SCHEMA = {"openapi": "3.0.2", "info": {"title": "t", "version": "1"}, "paths": {"/items": {"post": {
     "parameters": [{"name": "q", "in": "query", "required": True, "schema": {"type": "string"}}],
     "requestBody": {"required": True, "content": {"application/json": {"schema": {"type": "string"}}}},
-    "responses": {"200": {"description": "ok"}}}}}}
+    "responses": {"200": {"description": "ok"}}}},
+    "/ping": {"get": {"parameters": [{"name": "n", "in": "query", "required": True, "schema": {"type": "integer", "minimum": 0, "maximum": 9}}],
+                      "responses": {"200": {"description": "ok"}}}}}}
 HOSTILE = b'\xff\x00 caf\xe9 "dq" \'sq\' \\ \n: #{[ \xe2\x80\xa8 end'
 
 
 def _cli_script(method: str, path: str, body: bytes) -> dict:
     if path.startswith("/openapi.json"):
         return {"status": 200, "reason": "OK", "headers": [("Content-Type", "application/json")], "body": json.dumps(CLI_SCHEMA).encode()}
+    if path.startswith("/ping"):
+        return {"status": 200, "reason": "OK", "headers": [("Content-Type", "application/json")], "body": b'{"pong": true}'}
     kind = len(body) % 3
-    return {"status": 500 if len(body) % 5 == 4 else 200, "reason": "It's \"fine\": #1",
+    return {"status": 500 if len(body) % 5 == 4 else 200, "reason": "It's \"fine\": #1", "truncate": len(body) % 4 == 3,
             "headers": [("Content-Type", CTYPES[kind]), ("X-Weird", "a'b\"c: #d \\ \xe9")],
             "body": HOSTILE if kind else b'{"ok": "\\ud800 \xc3\xa9"}'}
 
@@ -1067,7 +1086,9 @@ def cli_run(desc: dict) -> dict:
             except FileNotFoundError:
                 files[n] = None
         with srv.lock:
-            log = [r for r in srv.log if r["target"].startswith("/items") and any(k.lower() == "x-schemathesis-testcaseid" for k, _ in r["headers"])]
+            log = [r for r in srv.log if r["target"].startswith(("/items", "/ping")) and not r["script"].get("truncate")
+                   and any(k.lower() == "x-schemathesis-testcaseid" for k, _ in r["headers"])]
+            truncated = sum(1 for r in srv.log if r["script"].get("truncate"))
         xs, entries = [], []
         for r in log:
             sc = r["script"]
@@ -1089,8 +1110,8 @@ def cli_run(desc: dict) -> dict:
         o = {"xs": xs, "entries": entries, "command": {"has": False, "exact": False, "v": []}, "crashAt": 0 if p.returncode in (0, 1) else 1,
              "crashSite": "" if p.returncode in (0, 1) else "st run exit code %s: %s" % (p.returncode, (p.stdout + p.stderr)[-300:]),
              "vcr": files["vcr.yaml"], "har": project_har(files["har.json"]),
-             "junitOk": junit["ok"] and [c["label"] for c in junit["cases"]] == ["POST /items"], "title": "", "desc": desc,
-             "exchanges": len(xs), "failed": sum(e["status"] == "FAILURE" for e in entries)}
+             "junitOk": junit["ok"] and sorted(c["label"] for c in junit["cases"]) == ["GET /ping", "POST /items"], "title": "", "desc": desc,
+             "exchanges": len(xs), "truncated_responses": truncated, "failed": sum(e["status"] == "FAILURE" for e in entries)}
         case = {"s": [], "field": "cli", "preserve": desc["preserve"], "sanitize": desc["sanitize"], "wire": True, "cli": desc}
         o["py"] = sorted(py_string_verdict(case, o))
         return {"case": case, "obs": o}
@@ -1272,7 +1293,8 @@ def run(ctx: Ctx) -> Outcome:
         "traces_validated_against_impl": len(hs) + len(kept_cases) + len(wtraces),
         "judge_states": states_judge_h + states_judge_s + states_w,
         "writer_model_states": res_w.distinct,
-        "cli_runs": [{"desc": co["obs"]["desc"], "exchanges": co["obs"]["exchanges"], "failed_checks": co["obs"]["failed"]} for co in cli_obs],
+        "cli_runs": [{"desc": co["obs"]["desc"], "exchanges": co["obs"]["exchanges"], "failed_checks": co["obs"]["failed"],
+                      "truncated_responses": co["obs"]["truncated_responses"]} for co in cli_obs],
         "writer_traces": [{"format": t["format"], "n": t["n"], "events": len(t["events"]), "join_timed_out": t["timedOut"],
                            "accepted": v["accepted"]} for t, v in zip(wtraces, wverdicts)],
         "evaluations": len(hs) + len(cases),
